@@ -244,6 +244,16 @@ func H_C07_Recover(v *verifrt.T) {
 	c.Add(&hashFile{File: src.files["a"], hash: "h-a"})
 	c.Add(&hashFile{File: src.files["d"], hash: "h-d"})
 	c.Done("d", nil)
+	// while the sender was down the file may have been replaced
+	changed := v.Choose("file-replaced-while-down", 3) // 0 no, 1 same size / other mtime, 2 other size
+	switch changed {
+	case 1:
+		src.files["a"].time = mt.Add(time.Minute)
+		src.files["a"].tag = "v2"
+	case 2:
+		src.files["a"].size = size + 1
+		src.files["a"].tag = "v2"
+	}
 	// receiver's list
 	var partials []*sts.Partial
 	nr := v.Choose("ranges-on-record", 3)
@@ -267,6 +277,7 @@ func H_C07_Recover(v *verifrt.T) {
 	pollFails := v.Choose("poll-errors-first", v.Param("POLLERRS", 2)+1)
 	code := v.Choose("poll-answer", 4) // none, failed, passed, waiting
 	polls := 0
+	var polled []string
 	slog := &vSentLog{}
 	broker := &Broker{
 		Conf: &Conf{Name: "v", Cache: c, Store: src, Tagger: func(string) string { return "t" }, Logger: slog,
@@ -279,6 +290,7 @@ func H_C07_Recover(v *verifrt.T) {
 				}
 				var out []sts.Polled
 				for _, f := range files {
+					polled = append(polled, f.GetName())
 					out = append(out, &vPolled{name: f.GetName(), code: code})
 				}
 				return out, nil
@@ -311,6 +323,18 @@ func H_C07_Recover(v *verifrt.T) {
 	}
 	v.Assert(zSeen && dSeen, "C07.O4 placeholders keep the ordering chain")
 	doneA := c.Get("a").IsDone()
+	if changed != 0 {
+		// what is on disk is not what was (partly) sent: it must be neither
+		// confirmed by name nor resumed; the next scan hashes and sends it
+		v.Reach("replaced")
+		v.Assert(!doneA, "C02 a file replaced while the sender was down is not released on the strength of the old version's confirmation")
+		for _, n := range polled {
+			v.Assert(n != "a", "C07 a replaced file is not polled under the old version's identity")
+		}
+		v.Assert(forA == nil && !plainA, "C07 a replaced file is left to the next scan")
+		v.Assert(len(src.removed) == 0, "C02 nothing is deleted")
+		return
+	}
 	// coverage of the record
 	x := v.Int64("x")
 	v.Assume(0 <= x)
